@@ -71,7 +71,7 @@ class Run:
         for e in self.known:
             if e.get('status') != 'open':
                 continue
-            if fnmatch.fnmatchcase(key, e['key']):
+            if key == e['key'] or fnmatch.fnmatchcase(key, e['key']):
                 return e
         return None
 
